@@ -6,7 +6,7 @@
 
 // ------------------------------------------------------------------------------------------------
 enum { S_BUILD, S_BUILDM, S_CONST, S_VAR, S_OP, S_NOT, S_VIA, S_ASSIGN, S_SELFASSIGN, S_RELEASE, S_RELEASEALL, S_CLEAR, S_STALES, S_CLEARALL,
-       S_DUP, S_UNDUP, S_CHURNUP, S_CHURNDOWN, S_WARM, S_BUILDR, S_IMG, S_REACH, S_DESTROYG, S_BUILDOP, S_CARD, S_SURGE };
+       S_DUP, S_UNDUP, S_CHURNUP, S_CHURNDOWN, S_WARM, S_BUILDR, S_IMG, S_REACH, S_DESTROYG, S_BUILDOP, S_CARD, S_SURGE, S_FRAG };
 struct Sym { int type; int a,b,c,d; };
 
 static const char* OPNAME[8] = {"op0","op1","op2","op3","op4","op5","op6","op7"};
@@ -40,6 +40,7 @@ static std::string sym_str(const Sym& y)
         case S_BUILDOP: snprintf(b,sizeof b,"BUILDOP(f%d,f%d,%d->r%d)",y.a,y.b,y.c,y.d); break;
         case S_CARD: snprintf(b,sizeof b,"CARD(r%d)",y.a); break;
         case S_SURGE: snprintf(b,sizeof b,"SURGE(r%d,%d,%d,%d)",y.a,y.b,y.c,y.d); break;
+        case S_FRAG: snprintf(b,sizeof b,"FRAG(%d,%s)",y.a,y.b?"keep":"drop"); break;
         default: snprintf(b,sizeof b,"?");
     }
     return b;
@@ -164,6 +165,15 @@ static void exec_history(const Scn& H, const std::vector<int>& hist, const Cfg& 
                     dups.clear(); dups.insert(dups.end(), (size_t)y.b, reg[y.a]); dups.resize((size_t)y.c, dd_edge(F)); dups.insert(dups.end(), (size_t)(y.d-y.c), reg[y.a]); break;
                 case S_CHURNUP: for (int i=0;i<y.a;i++) { churn.emplace_back(F); B.build(tab_from_index(((unsigned long)i*37+5)%H.U,H.P,H.V), churn.back()); } break;
                 case S_CHURNDOWN: churn.clear(); break;
+                case S_FRAG: { // fragment and coalesce node memory: build n functions, release every other one, build n/2 others into the holes,
+                    // release the first batch from the end backwards; optionally keep the second batch
+                    std::vector<dd_edge> f1, f2;
+                    for (int i=0;i<y.a;i++) { f1.emplace_back(F); B.build(tab_from_index(((unsigned long)i*37+5)%H.U,H.P,H.V), f1.back()); }
+                    for (int i=1;i<y.a;i+=2) f1[i].set(F->getTransparentEdge(), F->getTransparentNode());
+                    for (int i=0;i<y.a/2;i++) { f2.emplace_back(F); B.build(tab_from_index(((unsigned long)i*53+11)%H.U,H.P,H.V), f2.back()); }
+                    while (!f1.empty()) f1.pop_back();
+                    if (y.b) for (auto& e : f2) churn.push_back(e);
+                    } break;
                 case S_WARM: if (ops[0]) { dd_edge a(F), b(F), c(F); for (int i=0;i<y.a;i++) { B.build(tab_from_index(((unsigned long)i*53+11)%H.U,H.P,H.V),a); B.build(tab_from_index(((unsigned long)i*29+3)%H.U,H.P,H.V),b); ops[i%H.nops] ? ops[i%H.nops]->compute(a,b,c) : ops[0]->compute(a,b,c); } } break;
                 case S_BUILDR: if (R) { Builder BR(R,rk,H.s); BR.build(H.rcat[y.a], rreg); rrt=H.rcat[y.a]; } break;
                 case S_IMG: if (R) { binary_operation* op = get_bop(y.a?PRE_IMAGE():POST_IMAGE(),F,R,F,"IMAGE"); if (op) { Table t = img_model(H.s,rt[y.b],rrt,y.a); op->compute(reg[y.b],rreg,reg[y.c]); rt[y.c]=t; } } break;
@@ -297,7 +307,7 @@ static void make_scn(Scn& H, const std::map<std::string,std::string>& spec)
         for (int n : {254,255,256,257,65535,65536,65537}) add(S_DUP,0,n);
         add(S_UNDUP);
         add(S_SURGE,0,65537,100,300); add(S_SURGE,1,300,10,70000);
-        add(S_CHURNUP,600); add(S_CHURNDOWN);
+        add(S_CHURNUP,600); add(S_CHURNDOWN); add(S_FRAG,300,0); add(S_FRAG,120,1);
         add(S_DESTROYG);
         if (H.relscn) { for (int m=0;m<(int)H.rcat.size();m++) add(S_BUILDR,m); add(S_IMG,0,0,2); add(S_IMG,1,0,2); add(S_IMG,0,2,2); for (int a=0;a<3;a++) add(S_REACH,a,0,2); add(S_REACH,2,2,1); }
     } else if (H.profile=="c07") {
@@ -314,7 +324,7 @@ static void make_scn(Scn& H, const std::map<std::string,std::string>& spec)
         for (int o=0;o<H.nops;o++) { add(S_OP,o,0,1,2); add(S_OP,o,2,1,1); }
         add(S_VIA,0,2);
         for (int r=0;r<3;r++) add(S_RELEASE,r);
-        add(S_CLEAR); add(S_CHURNUP,600); add(S_CHURNDOWN); add(S_CHURNUP,20);
+        add(S_CLEAR); add(S_CHURNUP,600); add(S_CHURNDOWN); add(S_CHURNUP,20); add(S_FRAG,300,0); add(S_FRAG,120,1);
         if (H.relscn) { for (int m=0;m<(int)H.rcat.size();m++) add(S_BUILDR,m); add(S_IMG,0,0,2); add(S_IMG,1,1,2); for (int a2=0;a2<3;a2++) add(S_REACH,a2,0,2); }
     }
     H.leak_probe = (H.profile=="c06");
